@@ -241,11 +241,21 @@ func newInst(s *vdrv.Scenario) vdrv.Instance {
 	for k := 1; k <= s.OptInt("ctxs", 3); k++ {
 		in.ctxs[k], in.cancels[k] = vcontext.WithCancel(vcontext.Background())
 	}
-	in.workers, in.limit = s.OptInt("workers", 1), s.OptInt("limit", 0)
+	// the options go to NewPool as given (zero / negative values included); the monitors use their documented meaning:
+	// NumberWorker <= 0 means runtime.NumCPU() (fixed to 2 here), ExpandableLimit < 0 means 0
+	rawWorkers, rawLimit := s.OptInt("workers", 1), s.OptInt("limit", 0)
+	wp.VerifSetNumCPU(2)
+	in.workers, in.limit = rawWorkers, rawLimit
+	if in.workers <= 0 {
+		in.workers = 2
+	}
+	if in.limit < 0 {
+		in.limit = 0
+	}
 	// the pool context is a child of a harness-owned root, so that the harness can recognise it
 	root, rootCancel := vcontext.WithCancel(vcontext.Background())
 	in.cancels[0] = rootCancel
-	in.p = wp.NewPool(root, wp.Option{NumberWorker: in.workers, ExpandableLimit: int32(in.limit), DisableAutoStart: s.OptInt("autostart", 1) == 0})
+	in.p = wp.NewPool(root, wp.Option{NumberWorker: rawWorkers, ExpandableLimit: int32(rawLimit), DisableAutoStart: s.OptInt("autostart", 1) == 0})
 	in.poolCtx = in.p.VerifCtx()
 	current = in
 	return in
